@@ -61,6 +61,7 @@ type Scenario struct {
 	SnapshotAt   int    `json:"snapshotat"`   // request a local snapshot on every node after this many client writes (0 = never)
 	Partition    int    `json:"partition"`    // isolate this node (1..N) during the fault window (0 = none)
 	Follower     bool   `json:"follower"`     // issue client writes through a follower's Dataset as well
+	DropSnap     int    `json:"dropsnap"`     // lose this many snapshot messages (MsgSnap), also outside the fault window
 }
 
 type event map[string]interface{}
@@ -118,6 +119,7 @@ type world struct {
 	meta       pb.Dataset
 	crashed    chan *node
 	crashArmed int32
+	snapDrops  int32
 }
 
 func (s *shim) Receive(ctx context.Context, req *pb.RaftMessage) (*pb.EmptyMessage, error) {
@@ -131,6 +133,10 @@ func (s *shim) Receive(ctx context.Context, req *pb.RaftMessage) (*pb.EmptyMessa
 	var m raftpb.Message
 	m.Unmarshal(req.GetMessage())
 	w := s.w
+	if m.Type == raftpb.MsgSnap && atomic.AddInt32(&w.snapDrops, 1) <= int32(w.sc.DropSnap) {
+		emit(event{"ev": "dropsnap", "node": n.idx})
+		return nil, fmt.Errorf("snapshot message lost")
+	}
 	if atomic.LoadInt32(&w.faults) == 1 {
 		if w.sc.Partition != 0 && (int(m.From) == w.sc.Partition || int(m.To) == w.sc.Partition) {
 			return nil, fmt.Errorf("partitioned")
